@@ -31,6 +31,13 @@ CHECKS = {
         note="compiler-synthesised functions are checked for code presence only",
         technique="runtime monitoring with a reference-model oracle over extracted function code",
     ),
+    "C17": dict(
+        category="exploration",
+        text="Non-interference runtime monitor: the unused-argument report (check_unused, as printed by run --check-unused-args) of generated programs with parameters in 13 usage modes is tested against executions of the compiled program: for every parameter reported unused, pairs of argument trees differing in that parameter alone (7 replacement shapes x several base trees) are run with clvmr and must return the same value or both fail.",
+        design_ref="DESIGN.md §4 C17",
+        note="one listed finding: the check's evaluator is lazier than compiled code (discarded argument expressions)",
+        technique="runtime non-interference monitoring over argument pairs (differential executions under the consensus evaluator)",
+    ),
     "C18": dict(
         category="exploration",
         text="Runtime monitor at two boundaries: the dependency listing of the real `run -M` / Python check_dependencies is compared with the files a real compilation of the same generated include graph actually opens (strace openat log), for random graphs, shadowed duplicates, embed-file kinds, dialects and search-path orders.",
